@@ -304,11 +304,14 @@ def ancestor_pattern_program(draw, cfg=DEFAULT_CFG, cache_rel='cache.gz'):
     univ = cfg['universe']
     masked = set(cache_ancestors(cache_rel))
     parents = [u for u in univ if u not in masked and any(v.startswith(u + '/') for v in univ)]
-    F = draw(st.sampled_from(parents))
+    deep_parents = [u for u in parents if any(v.startswith(u + '/') and v.count('/') >= u.count('/') + 2 for v in univ)]
+    F = draw(st.sampled_from(deep_parents if deep_parents and draw(st.booleans()) else parents))
     kids = [v for v in univ if v.startswith(F + '/')]
-    child = draw(st.sampled_from(kids))
+    deep_kids = [v for v in kids if v.count('/') >= F.count('/') + 2]
+    # (a target two or more levels below F: the directory chain between them has to be created as well)
+    child = draw(st.sampled_from(deep_kids if deep_kids and draw(st.booleans()) else kids))
     modes = {'ok': [['write']], 'raise_after': [['write'], ['raise']], 'raise_before': [['raise']], 'no_create': []}
-    funcs = {'f0': {'kind': 'file', 'body': modes[draw(st.sampled_from(['raise_after', 'raise_before', 'no_create', 'ok']))]},
+    funcs = {'f0': {'kind': 'file', 'body': modes[draw(st.sampled_from(['raise_after', 'raise_before', 'no_create', 'ok', 'ok']))]},
              'f1': {'kind': 'file', 'body': modes[draw(st.sampled_from(['ok', 'ok', 'raise_after']))]},
              'f2': {'kind': 'file', 'body': [['write']]}}
     calls = [['bf', F, 'f0', [], draw(st.sampled_from(cfg['cmp'])), True],
@@ -359,6 +362,19 @@ def nested_failure_program(draw, cfg=DEFAULT_CFG, cache_rel='cache.gz'):
 
     p_kind = draw(st.sampled_from(['sub', 'sub', 'file']))
     f_kind = draw(st.sampled_from(['file', 'file', 'sub']))
+    same_dir = None
+    if p_kind == 'file' and f_kind == 'file' and draw(st.booleans()):
+        # the failing nested target and its caller's own target are siblings in one (new) directory
+        pairs = [(x, y) for x in univ for y in univ if x != y and '/' in x and x.rsplit('/', 1)[0] == y.rsplit('/', 1)[0]
+                 and all(q not in masked and q != cache_rel for q in (x, y, x.rsplit('/', 1)[0]))
+                 and not any(v.startswith(x + '/') or v.startswith(y + '/') for v in univ)]
+        if pairs:
+            x, y = draw(st.sampled_from(pairs))
+            rest = [o for o in outs if not (o == x or o == y or o.startswith(x + '/') or o.startswith(y + '/') or
+                                            x.startswith(o + '/') or y.startswith(o + '/'))]
+            if rest:
+                outs = [rest[0], x, y] + rest[1:]
+                same_dir = x.rsplit('/', 1)[0]
     funcs = {'y': {'kind': 'file', 'body': some_queries(1) + [['write']]}}
     f_body = some_queries(1) + [['bf', outs[0], 'y', [], draw(cmp_), True]]
     if draw(st.booleans()):
@@ -371,10 +387,17 @@ def nested_failure_program(draw, cfg=DEFAULT_CFG, cache_rel='cache.gz'):
     funcs['f'] = {'kind': f_kind, 'body': f_body}
     f_call = ['bf', outs[1], 'f', [], draw(cmp_), True] if f_kind == 'file' else ['sb', 'f', [], True]
     p_body = some_queries(1) + [f_call] + some_queries(2)
+    if same_dir is not None:
+        k = p_body.index(f_call) + 1
+        p_body.insert(k, ['q', draw(st.sampled_from(['is_dir', 'list_dir', 'exists', 'walk'])), same_dir, 'METADATA'])
     if p_kind == 'file':
         p_body.insert(draw(st.integers(0, len(p_body))), ['write'])
     funcs['p'] = {'kind': p_kind, 'body': p_body}
     p_call = ['bf', outs[2], 'p', [], draw(cmp_), True] if p_kind == 'file' else ['sb', 'p', [], True]
+    if draw(st.sampled_from(range(3))) == 0:
+        # one more cacheable level around the caller
+        funcs['w'] = {'kind': 'sub', 'body': some_queries(1) + [p_call]}
+        p_call = ['sb', 'w', [], True]
     root = some_queries(1) + [p_call]
     for _ in range(draw(st.integers(0, 2))):
         root.append(draw(st.one_of(query, st.just(['probe']))))
@@ -387,7 +410,7 @@ def nested_failure_program(draw, cfg=DEFAULT_CFG, cache_rel='cache.gz'):
     used = [outs[0], outs[1], outs[2]]
     sibs = [u for u in univ if u.startswith(top + '/') and u not in masked and u != cache_rel and
             all(not (u == o or u.startswith(o + '/') or o.startswith(u + '/')) for o in used)]
-    if f_kind == 'file' and '/' in outs[1] and top not in masked and sibs and draw(st.booleans()):
+    if f_kind == 'file' and '/' in outs[1] and top not in masked and sibs and draw(st.sampled_from(range(4))):
         sib = draw(st.sampled_from(sibs))
         funcs['s'] = {'kind': 'file', 'body': [['write']]}
         s_call = ['bf', sib, 's', [], draw(cmp_), True]
